@@ -31,7 +31,7 @@ func init() { Register("C17", runC17) }
 
 func runC17(c *Ctx) {
 	p, r := c.P, c.R
-	r.Explanation = "Decides the structural clauses of 'gated events do not linger': list-iteration safety of every loop over the ordered container/list (the successor is read before any call that may remove the element, for every list length at once), the shape of the expiry scan and of FlushAll (every element visited, gate opened for each, only exits: exhausted / error / not expired), Close reaching FlushAll, the expiry scan preceding the insertion in Process, and paired removal from both containers on every path of openGate. Wall-clock behaviour and memory bounds as numbers are not decided. C17.listops: only order-preserving list operations."
+	r.Explanation = "Decides the structural clauses of 'gated events do not linger': list-iteration safety of every loop over the ordered container/list (the successor is read before any call that may remove the element, for every list length at once), the shape of the expiry scan and of FlushAll (every element visited, gate opened for each, only exits: exhausted / error / not expired), Close reaching FlushAll, the expiry scan preceding the insertion in Process, and paired removal from both containers on every path of openGate. Wall-clock behaviour and memory bounds as numbers are not decided. C17.listops: only order-preserving list operations. C17.first also: every nil-error return of Process ran the scan (known finding F38: a non-Gateable event passes before it), and a group is stamped with an expiration that was found positive or defaulted."
 	r.NotDecided = []string{"wall-clock expiry behaviour", "numeric memory bounds"}
 	c.errControls()
 	n := 0
@@ -47,6 +47,7 @@ func runC17(c *Ctx) {
 	c.gatedContainerRules("C17")
 	// "oldest first": nothing reorders the list
 	c.ruleListOps("C17.listops")
+	c.ruleNoHandOff("C17.section", PkgGated)
 }
 
 var _ = ssa.Instruction(nil)
